@@ -42,6 +42,7 @@ type checkRunner struct {
 
 	checkedRcpts         []string
 	checkedRcptsPerCheck map[module.CheckState]map[string]struct{}
+	checkedBodyPerCheck  map[module.CheckState]struct{}
 	checkedRcptsLock     sync.Mutex
 
 	resolver      dns.Resolver
@@ -60,6 +61,7 @@ func newCheckRunner(msgMeta *module.MsgMetadata, log log.Logger, r dns.Resolver)
 	return &checkRunner{
 		msgMeta:              msgMeta,
 		checkedRcptsPerCheck: map[module.CheckState]map[string]struct{}{},
+		checkedBodyPerCheck:  map[module.CheckState]struct{}{},
 		log:                  log,
 		resolver:             r,
 		dmarcVerify:          dmarc.NewVerifier(r),
@@ -283,6 +285,16 @@ func (cr *checkRunner) checkBody(ctx context.Context, checks []module.Check, hea
 	}
 
 	return cr.runAndMergeResults(states, func(s module.CheckState) module.CheckResult {
+		// Avoid calling CheckBody for the same check multiple times if it is
+		// used in multiple blocks (global, source, destination).
+		cr.checkedRcptsLock.Lock()
+		if _, ok := cr.checkedBodyPerCheck[s]; ok {
+			cr.checkedRcptsLock.Unlock()
+			return module.CheckResult{}
+		}
+		cr.checkedBodyPerCheck[s] = struct{}{}
+		cr.checkedRcptsLock.Unlock()
+
 		res := s.CheckBody(ctx, header, body)
 		return res
 	})
